@@ -234,9 +234,10 @@ PROPS['C12'] = {
     'assumptions': ['oracle tables are from Linux 6.1 headers / Go 1.23.5 syscall / x/sys v0.48.0: entries newer than all three are only checked for the inverse laws',
                     'unicode strings that case-fold onto an alias are outside the statement'],
     'required_classes': {'all': ['table:x86_64', 'table:i386', 'table:arm', 'table:aarch64', 'table:x32', 'by-name', 'by-number',
-                                 'alias-in-non-canonical-case', 'unsupported-or-unknown', 'lookups-across-processes', 'alias:x32', 'alias:amd64', 'alias:arm64', 'alias:386']},
+                                 'alias-in-non-canonical-case', 'unsupported-or-unknown', 'lookups-across-processes', 'alias:x32', 'alias:amd64', 'alias:arm64', 'alias:386', 'cross-table-law:x32-common', 'cross-table-law:unified']},
     'units': [
         {'test': 'TestC12Tables', 'timeout': {'quick': 300, 'thorough': 300}},
+        {'test': 'TestC12CrossTable', 'timeout': {'quick': 300, 'thorough': 300}},
         {'test': 'TestC12ArchMetadata', 'checks': {'quick': 5000, 'thorough': 300000}, 'timeout': {'quick': 300, 'thorough': 1200}},
         {'test': 'TestC12Processes', 'helpers': ['digest'], 'timeout': {'quick': 300, 'thorough': 600}},
     ],
